@@ -31,7 +31,22 @@ type JobD struct {
 	Cancel bool  `json:"cancel,omitempty"` // the body cancels the context before finishing
 	Stuck  bool  `json:"stuck,omitempty"`  // the body is held until the caller has returned
 	Enq    int   `json:"enq,omitempty"`    // 0: enqueued by the caller; k>0: by concurrent enqueuer k
+	// Ctx: which context the job is enqueued with. 0: the scheduler's (the one
+	// Wait gets); 1: a context of its own that stays live; 2: a context of its
+	// own that is already cancelled when the job is enqueued; 3: a context of
+	// its own that job CtxBy cancels from inside its body (CtxBy may be the
+	// job itself).
+	Ctx   int `json:"ctx,omitempty"`
+	CtxBy int `json:"ctx_by,omitempty"`
 }
+
+// Per-job context modes.
+const (
+	CtxShared = iota
+	CtxOwnLive
+	CtxOwnDead
+	CtxOwnCancelledBy
+)
 
 // SchedD describes one scheduler and its workload.
 type SchedD struct {
@@ -249,6 +264,32 @@ func Generate(rng *rand.Rand, prop, tier string, gomaxprocs int) *Desc {
 				jd.Stuck = true
 			}
 			s.Jobs = append(s.Jobs, jd)
+		}
+		// per-job contexts (raw scheduler API only: generated code shares one context)
+		if prop != "C03scale" && nj > 0 && rng.Intn(4) == 0 {
+			for j := range s.Jobs {
+				if rng.Intn(3) != 0 {
+					continue
+				}
+				jd := &s.Jobs[j]
+				switch r := rng.Intn(10); {
+				case r < 3:
+					jd.Ctx = CtxOwnLive
+				case r < 6:
+					if !s.Barrier {
+						jd.Ctx = CtxOwnDead
+					}
+				case r < 8:
+					jd.Ctx, jd.CtxBy = CtxOwnCancelledBy, j // cancels its own context while running
+				default:
+					if !s.Barrier {
+						jd.Ctx, jd.CtxBy = CtxOwnCancelledBy, rng.Intn(nj)
+						if len(jd.Deps) > 0 && rng.Intn(2) == 0 {
+							jd.CtxBy = jd.Deps[rng.Intn(len(jd.Deps))]
+						}
+					}
+				}
+			}
 		}
 		if inJobCancel && nj > 0 {
 			s.Jobs[rng.Intn(nj)].Cancel = true
